@@ -194,6 +194,8 @@ pub fn generate(seed: u64, tier: Tier) -> Case {
     for _ in 0..(if rng.chance(1, 10) { rng.range(1, 2) } else { 0 }) {
         let stem = *rng.pick(&[
             ".", "..", "...", "a..b", ".a", "a b", " ", "-", "a-b", "\u{e9}t\u{e9}", "m\u{b2}", "3d", "_", "x.y.z", "..a", "a.",
+            // not UTF-8 (`%XX` is that byte)
+            "a%FF", "%FE", "caf%E9",
         ]);
         let dir = match rng.below(4) {
             0 => String::new(),
